@@ -6,40 +6,87 @@
 
 package signal
 
+// C04.  The signal data start at bit S and hold N = header.NumSignalCells cells (the
+// number of set bits of the cell mask), field-major.  A message that is long enough
+// for them (EnoughBits) is accepted and every cell of the matrix is the cell the mask
+// puts there (Row4OK, /verif/spec/msm.spec), attached to its satellite cell and
+// signal id; nothing in the result depends on what follows the N cells (padding).
+// (The wavelength field is derived from constellation and signal id, not decoded: C05.)
 //@ func GetSignalCells
+//@ opaque Row4OK, Sig4OK
+//@ sequential
 //@ requires[C07] header != nil
 //@ requires HeaderWF(header) && len(satCells) == len(header.Satellites) && startOfSignalCells <= 1<<40 && startOfSignalCells + 24 <= 8*len(bitStream)
+//@ requires 0 <= header.NumSignalCells && header.NumSignalCells <= 64
+//@ requires[C04] HdrCells(header)
 //@ let S = startOfSignalCells
+//@ let N = header.NumSignalCells
+//@ let M = header.CellMask
+//@ let ns = len(header.Signals)
+//@ let T = len(header.Satellites) * len(header.Signals)
+//@ let P = 8*offof(bitStream) + startOfSignalCells
+//@ let Enough = startOfSignalCells + 48*header.NumSignalCells + 24 <= 8*len(bitStream)
 //@ ensures r1 == nil ==> len(r0) == len(header.Satellites) && fresh(r0)
+//@ ensures[C04] Enough && (!header.MultipleMessage || N >= 1) ==> r1 == nil
+//@ ensures[C04] r1 == nil && Enough ==> forall(k, 0, len(r0), Row4OK(contents(r0[k]), offof(r0[k]), len(r0[k]), contents(header.Signals), offof(header.Signals), M, T, ns, k, ns, contents(bitStream), P, N, addr(satCells, k), logLevel))
 //@ loop 1
 //@ invariant 0 <= i && i <= numSignalCells && len(rangeDelta) == i && fresh(rangeDelta) && pos == S + 15*i
 //@ invariant 0 <= numSignalCells && S + 48*numSignalCells <= 8*len(bitStream)
+//@ invariant[C04] Enough ==> numSignalCells == N
+//@ invariant[C04] forall(k, 0, len(rangeDelta), rangeDelta[k] == sbits(bitStream, S + 15*k, 15))
 //@ decreases numSignalCells - i
 //@ loop 2
 //@ invariant 0 <= i && i <= numSignalCells && len(phaseRangeDelta) == i && fresh(phaseRangeDelta) && pos == S + 15*numSignalCells + 22*i
 //@ invariant 0 <= numSignalCells && S + 48*numSignalCells <= 8*len(bitStream) && len(rangeDelta) == numSignalCells
+//@ invariant[C04] (Enough ==> numSignalCells == N) && allocated(rangeDelta) && arrof(rangeDelta) != arrof(phaseRangeDelta)
+//@ invariant[C04] forall(k, 0, numSignalCells, rangeDelta[k] == sbits(bitStream, S + 15*k, 15))
+//@ invariant[C04] forall(k, 0, len(phaseRangeDelta), phaseRangeDelta[k] == sbits(bitStream, S + 15*numSignalCells + 22*k, 22))
 //@ decreases numSignalCells - i
 //@ loop 3
 //@ invariant 0 <= i && i <= numSignalCells && len(lockTimeIndicator) == i && fresh(lockTimeIndicator) && pos == S + 37*numSignalCells + 4*i
 //@ invariant 0 <= numSignalCells && S + 48*numSignalCells <= 8*len(bitStream) && len(rangeDelta) == numSignalCells && len(phaseRangeDelta) == numSignalCells
+//@ invariant[C04] (Enough ==> numSignalCells == N)
+//@ invariant[C04] forall(k, 0, len(lockTimeIndicator), lockTimeIndicator[k] == bits(bitStream, S + 37*numSignalCells + 4*k, 4))
 //@ decreases numSignalCells - i
 //@ loop 4
 //@ invariant 0 <= i && i <= numSignalCells && len(halfCycleAmbiguity) == i && fresh(halfCycleAmbiguity) && pos == S + 41*numSignalCells + i
 //@ invariant 0 <= numSignalCells && S + 48*numSignalCells <= 8*len(bitStream) && len(rangeDelta) == numSignalCells && len(phaseRangeDelta) == numSignalCells && len(lockTimeIndicator) == numSignalCells
+//@ invariant[C04] (Enough ==> numSignalCells == N)
+//@ invariant[C04] forall(k, 0, len(halfCycleAmbiguity), halfCycleAmbiguity[k] == (bits(bitStream, S + 41*numSignalCells + k, 1) == 1))
 //@ decreases numSignalCells - i
 //@ loop 5
 //@ invariant 0 <= i && i <= numSignalCells && len(cnr) == i && fresh(cnr) && pos == S + 42*numSignalCells + 6*i
 //@ invariant 0 <= numSignalCells && S + 48*numSignalCells <= 8*len(bitStream) && len(rangeDelta) == numSignalCells && len(phaseRangeDelta) == numSignalCells && len(lockTimeIndicator) == numSignalCells && len(halfCycleAmbiguity) == numSignalCells
+//@ invariant[C04] (Enough ==> numSignalCells == N) && allocated(lockTimeIndicator) && arrof(lockTimeIndicator) != arrof(cnr)
+//@ invariant[C04] forall(k, 0, numSignalCells, lockTimeIndicator[k] == bits(bitStream, S + 37*numSignalCells + 4*k, 4))
+//@ invariant[C04] forall(k, 0, len(cnr), cnr[k] == bits(bitStream, S + 42*numSignalCells + 6*k, 6))
 //@ decreases numSignalCells - i
 //@ loop 6
 //@ invariant 0 - 1 <= rangeindex && rangeindex <= len(header.Cells) - 1 && (len(header.Cells) == 0 || rangeindex < len(header.Cells))
 //@ invariant len(signalCells) == rangeindex + 1 && fresh(signalCells) && 0 <= c && forall(k, 0, len(signalCells), fresh(signalCells[k]))
 //@ invariant len(rangeDelta) == numSignalCells && len(phaseRangeDelta) == numSignalCells && len(lockTimeIndicator) == numSignalCells && len(halfCycleAmbiguity) == numSignalCells && len(cnr) == numSignalCells
+//@ invariant[C04] (rangeindex + 1) * ns <= T && ns >= 0
+//@ invariant[C04] (Enough ==> numSignalCells == N) && (Enough ==> c == cnthi(M, T, (rangeindex + 1) * ns))
+//@ invariant[C04] Enough ==> forall(k, 0, len(signalCells), allocated(signalCells[k]) && Row4OK(contents(signalCells[k]), offof(signalCells[k]), len(signalCells[k]), contents(header.Signals), offof(header.Signals), M, T, ns, k, ns, contents(bitStream), P, N, addr(satCells, k), logLevel))
 //@ decreases len(header.Cells) - rangeindex
 //@ loop 7
 //@ invariant 0 - 1 <= rangeindex && rangeindex <= len(header.Signals) - 1 && 0 <= i && i < len(header.Cells)
 //@ invariant len(signalCells) == i + 1 && fresh(signalCells) && 0 <= c && forall(k, 0, len(signalCells), fresh(signalCells[k]))
 //@ invariant len(rangeDelta) == numSignalCells && len(phaseRangeDelta) == numSignalCells && len(lockTimeIndicator) == numSignalCells && len(halfCycleAmbiguity) == numSignalCells && len(cnr) == numSignalCells
+//@ invariant[C04] i * ns + ns <= T && ns >= 0
+//@ invariant[C04] (Enough ==> numSignalCells == N) && (Enough ==> c == cnthi(M, T, i * ns + rangeindex + 1))
+//@ invariant[C04] Enough ==> forall(k, 0, i, allocated(signalCells[k]) && arrof(signalCells[k]) != arrof(signalCells[i]) && Row4OK(contents(signalCells[k]), offof(signalCells[k]), len(signalCells[k]), contents(header.Signals), offof(header.Signals), M, T, ns, k, ns, contents(bitStream), P, N, addr(satCells, k), logLevel))
+// the row being built (row i, columns 0..rangeindex): Row4OK unfolded, one field per conjunct
+//@ invariant[C04] Enough ==> allocated(signalCells[i]) && len(signalCells[i]) == cnthi(M, T, i*ns + rangeindex + 1) - cnthi(M, T, i*ns)
+//@ invariant[C04] Enough ==> forall(p, i*ns, i*ns + rangeindex + 1, bitof(M, T - 1 - p) == 1 ==> 0 <= cnthi(M, T, p) - cnthi(M, T, i*ns) && cnthi(M, T, p) - cnthi(M, T, i*ns) < len(signalCells[i]), cnthi(M, T, p))
+//@ invariant[C04] Enough ==> forall(p, i*ns, i*ns + rangeindex + 1, bitof(M, T - 1 - p) == 1 ==> signalCells[i][cnthi(M, T, p) - cnthi(M, T, i*ns)].ID == header.Signals[p - i*ns] && signalCells[i][cnthi(M, T, p) - cnthi(M, T, i*ns)].Satellite == addr(satCells, i) && signalCells[i][cnthi(M, T, p) - cnthi(M, T, i*ns)].LogLevel == logLevel, cnthi(M, T, p))
+//@ invariant[C04] Enough ==> forall(p, i*ns, i*ns + rangeindex + 1, bitof(M, T - 1 - p) == 1 ==> signalCells[i][cnthi(M, T, p) - cnthi(M, T, i*ns)].RangeDelta == sbits(bitStream, S + 15*cnthi(M, T, p), 15), cnthi(M, T, p))
+//@ invariant[C04] Enough ==> forall(p, i*ns, i*ns + rangeindex + 1, bitof(M, T - 1 - p) == 1 ==> signalCells[i][cnthi(M, T, p) - cnthi(M, T, i*ns)].PhaseRangeDelta == sbits(bitStream, S + 15*N + 22*cnthi(M, T, p), 22), cnthi(M, T, p))
+//@ invariant[C04] Enough ==> forall(p, i*ns, i*ns + rangeindex + 1, bitof(M, T - 1 - p) == 1 ==> signalCells[i][cnthi(M, T, p) - cnthi(M, T, i*ns)].LockTimeIndicator == bits(bitStream, S + 37*N + 4*cnthi(M, T, p), 4), cnthi(M, T, p))
+//@ invariant[C04] Enough ==> forall(p, i*ns, i*ns + rangeindex + 1, bitof(M, T - 1 - p) == 1 ==> signalCells[i][cnthi(M, T, p) - cnthi(M, T, i*ns)].HalfCycleAmbiguity == (bits(bitStream, S + 41*N + cnthi(M, T, p), 1) == 1), cnthi(M, T, p))
+//@ invariant[C04] Enough ==> forall(p, i*ns, i*ns + rangeindex + 1, bitof(M, T - 1 - p) == 1 ==> signalCells[i][cnthi(M, T, p) - cnthi(M, T, i*ns)].CarrierToNoiseRatio == bits(bitStream, S + 42*N + 6*cnthi(M, T, p), 6), cnthi(M, T, p))
+// ... and folded back into the predicate (proved from the conjuncts above)
+//@ invariant[C04] {reveal Row4OK, Sig4OK} Enough ==> Row4OK(contents(signalCells[i]), offof(signalCells[i]), len(signalCells[i]), contents(header.Signals), offof(header.Signals), M, T, ns, i, rangeindex + 1, contents(bitStream), P, N, addr(satCells, i), logLevel)
 //@ decreases len(header.Signals) - rangeindex
 
 // display: an invalid rough range shows as "invalid"
